@@ -25,6 +25,8 @@ for pid in sys.argv[2:]:
         x, y = names
         t = t.replace('call them A and B', 'call them %s and %s' % (x, y)).replace('{A,B}', '{%s,%s}' % (x, y)).replace('A and B should', '%s and %s should' % (x, y)).replace('summary of A and B', 'summary of %s and %s' % (x, y))
     t += "\n(Note: the kernel/goruntime test binary does not link on the unchanged tree under this toolchain; treat that as baseline.)\n"
+    if tag == '3':
+        t += "\nFor this round prefer sites that earlier rounds did not touch: callers and clients of the anchored mechanism in OTHER files or packages, data tables and constants, initialisation order, error / failure paths, type or width changes of fields, and behaviour that depends on state left behind by an earlier, unrelated call.\n"
     if tag:
         t += "\nThis is a LATER round. Ideas already used in earlier rounds — do something different in kind (different code site AND different mechanism), and prefer subtle ones: two cooperating edits that each look fine alone, state that only goes wrong after a specific multi-step history, or a boundary that only a rare configuration reaches:\n" + used(pid) + "\n"
     subprocess.run(['git', '-C', '/repo', 'worktree', 'add', '--detach', wt], capture_output=True)
